@@ -6,6 +6,7 @@ import (
 	"go/token"
 	"go/types"
 	"os"
+	"sort"
 	"strings"
 
 	"golang.org/x/tools/go/ssa"
@@ -96,7 +97,7 @@ func (f *frame) instr(in ssa.Instruction, st *bstate) {
 		}
 		f.oblige(st, "panic", f.panicText(x), "false", x.Pos())
 	case *ssa.RunDefers:
-		f.runDefers(st)
+		f.runDefers(st, in)
 	case *ssa.Defer:
 		f.deferInstr(x, st)
 	case *ssa.Go:
@@ -139,6 +140,12 @@ func (f *frame) instr(in ssa.Instruction, st *bstate) {
 		f.mapUpdate(x, st)
 	case *ssa.Range:
 		f.setVal(x, TV{T: "0", S: "Int", Ty: x.Type()})
+		if n, ok := f.visitedName[x]; ok {
+			g := st.ghost[n]
+			ks := f.visitedKeySort[n]
+			g.T = "((as const (Array " + ks + " Bool)) false)"
+			st.ghost[n] = g
+		}
 	case *ssa.Next:
 		f.next(x, st)
 	case *ssa.Extract:
@@ -1025,9 +1032,91 @@ func (f *frame) next(x *ssa.Next, st *bstate) {
 	d := sel(sel(vc.comp(st, compMdom(ks, vs), "(Array Int (Array "+ks+" Bool))"), m.T), k.T)
 	val := sel(sel(vc.comp(st, compMval(ks, vs), "(Array Int (Array "+ks+" "+vs+"))"), m.T), k.T)
 	f.assume(st, implies(okc, and(d, not(eq(m.T, "0")))))
+	if n, ok := f.visitedName[rng]; ok {
+		// every key is produced at most once; when the iteration ends every
+		// key still present has been produced (no insertion in the loop body)
+		g := st.ghost[n]
+		f.assume(st, implies(okc, not(sel(g.T, k.T))))
+		if f.rangeExhaustive(rng) {
+			drow := sel(vc.comp(st, compMdom(ks, vs), "(Array Int (Array "+ks+" Bool))"), m.T)
+			q := vc.fresh("vq", "Bool")
+			_ = q
+			f.assume(st, implies(not(okc), fmt.Sprintf("(forall ((q %s)) (! (=> (select %s q) (select %s q)) :pattern ((select %s q))))", ks, drow, g.T, drow)))
+		}
+		g.T = vc.define("ghost."+n, g.S, ite(okc, sto(g.T, k.T, "true"), g.T))
+		st.ghost[n] = g
+	}
 	v := TV{T: vc.define(f.id+x.Name()+".v", vs, val), S: vs, Ty: t.Elem()}
 	f.assumeWf(st, okc, v)
 	f.setVal(x, TV{Tuple: []TV{okTV, k, v}})
+}
+
+// initVisited declares one ghost set per map range loop of the top-level
+// function (visited1, visited2, ... in source order).
+func (f *frame) initVisited(st *bstate) {
+	if !f.top || f.fn == nil {
+		return
+	}
+	var rs []*ssa.Range
+	for _, b := range f.fn.Blocks {
+		for _, in := range b.Instrs {
+			if r, ok := in.(*ssa.Range); ok {
+				if _, isMap := r.X.Type().Underlying().(*types.Map); isMap {
+					rs = append(rs, r)
+				}
+			}
+		}
+	}
+	if len(rs) == 0 {
+		return
+	}
+	sort.Slice(rs, func(i, j int) bool { return rs[i].Pos() < rs[j].Pos() })
+	f.visitedName = map[*ssa.Range]string{}
+	f.visitedKeySort = map[string]string{}
+	for i, r := range rs {
+		n := fmt.Sprintf("visited%d", i+1)
+		ks := f.sortOf(r.X.Type().Underlying().(*types.Map).Key())
+		f.visitedName[r] = n
+		f.visitedKeySort[n] = ks
+		st.ghost[n] = TV{T: "((as const (Array " + ks + " Bool)) false)", S: "(Array " + ks + " Bool)"}
+	}
+}
+
+// rangeExhaustive: the loop over this map range neither inserts into a map of
+// that type nor calls code that could (only builtins and pure callees).
+func (f *frame) rangeExhaustive(rng *ssa.Range) bool {
+	var hdr *ssa.BasicBlock
+	for _, r := range *rng.Referrers() {
+		if n, ok := r.(*ssa.Next); ok {
+			hdr = n.Block()
+		}
+	}
+	li := f.loops[hdr]
+	if hdr == nil || li == nil {
+		return false
+	}
+	mt := rng.X.Type().Underlying()
+	for b := range li.body {
+		for _, in := range b.Instrs {
+			switch x := in.(type) {
+			case *ssa.MapUpdate:
+				if types.Identical(x.Map.Type().Underlying(), mt) {
+					return false
+				}
+			case ssa.CallInstruction:
+				if _, isB := x.Common().Value.(*ssa.Builtin); isB {
+					continue
+				}
+				if fn := x.Common().StaticCallee(); fn != nil && fn.Blocks != nil && f.eng().inferPure(fn) {
+					continue
+				}
+				if !f.isPureCallee(x.Common()) {
+					return false
+				}
+			}
+		}
+	}
+	return true
 }
 
 // simpleLiteral mirrors canInlineClosure (without the depth limit): such a
